@@ -86,7 +86,7 @@ func dangerous(name string) bool {
 // RunArity regenerates the table, writes gen Tables.v, compares with the known list and probes the
 // running binary at the enforced bounds (translator cross-check).
 func RunArity(ctx *common.Ctx) {
-	rows, err := arity.Extract("/repo")
+	rows, err := arity.Extract(common.RepoDir())
 	if err != nil {
 		ctx.Violate("translator failed to parse /repo", nil, err.Error(), nil)
 		return
